@@ -89,6 +89,7 @@ std::string histStr(const std::vector<Op> &h, const std::vector<WKind> &wk)
     for (auto &o : h) {
         if (!s.empty()) s += ' ';
         if (o.k == 'W') s += wk[o.a].label;
+        else if (o.k == 'Y') s += "Y" + wk[o.a].label.substr(1);      // a lagging record (message dated yesterday) of that size
         else if (o.k == 'D') s += "D" + std::to_string(o.a);
         else s += "R";
     }
@@ -297,11 +298,30 @@ struct World {
         LogMessage m(QtDebugMsg, ctx, text);
         sink->send(m);
     }
+    // a LAGGING record: the message was created yesterday (its timestamp says so) and reaches the sink only now - what an
+    // asynchronous logger does with a backlog across midnight. The record's day is the message's day.
+    void writeLagging(const QString &text)
+    {
+        QByteArray framed = text.toUtf8() + "\n";
+        long long now = vdev::nowMs;
+        vdev::nowMs = now - 86400000LL;
+        if (!faultMode) {
+            full.append(framed.constData(), framed.size());
+            recEnd.push_back(full.size());
+            recDay.push_back(dayStr(vdev::nowMs));
+        }
+        recCount++;
+        QMessageLogContext ctx("f.cpp", 1, "fn", "cat");
+        LogMessage m(QtDebugMsg, ctx, text);
+        vdev::nowMs = now;
+        sink->send(m);
+    }
     void apply(const Op &o, const std::vector<WKind> &wk)
     {
         opNo++;
         if (cfg.tick) vdev::nowMs += cfg.tick;
         if (o.k == 'W') write(wk[o.a]);
+        else if (o.k == 'Y') writeLagging(textFor(wk[o.a]));
         else if (o.k == 'D') vdev::nowMs += 86400000LL * o.a;
         else { closeSink(); open(); }
     }
@@ -592,6 +612,7 @@ RunResult runHistory(const Config &cfg, const std::vector<Op> &h, const std::vec
 
 bool g_reduced = false; // deep-narrow enumeration: only the smallest record and the record of exactly L bytes, D1, R
 
+bool g_lag = false;
 std::vector<Op> alphabet(const std::vector<WKind> &wk, int maxDay, int L = -1)
 {
     std::vector<Op> a;
@@ -600,6 +621,7 @@ std::vector<Op> alphabet(const std::vector<WKind> &wk, int maxDay, int L = -1)
         a.push_back({ 'W', (int)i });
     }
     if (g_reduced) maxDay = 1;
+    if (g_lag) for (size_t i = 0; i < wk.size(); i++) if (wk[i].special == 0 && (wk[i].size == 1 || wk[i].size == L)) a.push_back({ 'Y', (int)i });   // lagging records of size 1 and L
     for (int d = 1; d <= maxDay; d++) a.push_back({ 'D', d });
     a.push_back({ 'R', 0 });
     return a;
@@ -612,6 +634,7 @@ bool parseHistory(const std::string &s, const std::vector<WKind> &wk, std::vecto
         std::string t = tok.toStdString();
         if (t == "R") { out.push_back({ 'R', 0 }); continue; }
         if (t[0] == 'D') { out.push_back({ 'D', atoi(t.c_str() + 1) }); continue; }
+        if (t[0] == 'Y') { bool f = false; for (size_t i = 0; i < wk.size(); i++) if (wk[i].label == "W" + t.substr(1)) { out.push_back({ 'Y', (int)i }); f = true; } if (!f) return false; continue; }
         bool found = false;
         for (size_t i = 0; i < wk.size(); i++) if (wk[i].label == t) { out.push_back({ 'W', (int)i }); found = true; }
         if (!found) return false;
@@ -627,8 +650,11 @@ Config parseConfig(const std::string &s) // "L,N,opts,shape,tick"
     return c;
 }
 
+std::string g_onlyProp;   // "--only-prop C07": record violations of this property only (the others are counted); used where the explored
+                          // space is deliberately outside the other properties' statements (lagging records)
 void addViol(vx::Summary &sum, const Config &cfg, const std::string &hist, const Viol &v, const char *mode, const std::string &extra = "")
 {
+    if (!g_onlyProp.empty() && v.key.compare(0, g_onlyProp.size(), g_onlyProp) != 0) { sum.counters["violations_of_other_properties_not_recorded"]++; return; }
     // key: property + kind + option set (so that a different failing shape of the same property is a different finding)
     std::string key = v.key + " opts=" + ((cfg.opts & 1) ? "S" : "") + ((cfg.opts & 2) ? "D" : "") + ((cfg.opts & 4) ? "C" : "");
     sum.violate(key, "[" + cfg.str() + "] history [" + hist + "]: " + v.what,
@@ -1065,6 +1091,8 @@ int main(int argc, char **argv)
     int shard = vx::argInt(argc, argv, "--shard", 0), nshards = vx::argInt(argc, argv, "--nshards", 1);
     int maxDay = vx::argInt(argc, argv, "--maxday", 2);
     g_reduced = vx::argInt(argc, argv, "--reduced", 0) != 0;
+    g_lag = vx::argInt(argc, argv, "--lag", 0) != 0;
+    g_onlyProp = vx::argStr(argc, argv, "--only-prop", "");
     { int dl = vx::argInt(argc, argv, "--deadline-s", 0); if (dl > 0) g_deadline = realNow() + dl; }
     std::vector<Config> cfgs;
     for (auto &c : QString::fromLatin1(vx::argStr(argc, argv, "--configs", "5,3,0,0,0")).split(';', Qt::SkipEmptyParts)) cfgs.push_back(parseConfig(c.toStdString()));
